@@ -126,6 +126,14 @@ Proof.
     try (rewrite <- F8; apply bd_slot_ext; reflexivity).
 Qed.
 
+Lemma bd_rs_advance_facts n X :
+  c_out (rs_advance n X) = (c_out X) <| k_read := (k_read (c_out X) + n)%nat |> <| k_consume := (k_consume (c_out X) + n)%nat |> /\
+  c_out_tx (rs_advance n X) = c_out_tx X /\ c_out_status (rs_advance n X) = c_out_status X /\ c_events (rs_advance n X) = c_events X /\
+  c_out_body_data_left (rs_advance n X) = c_out_body_data_left X /\ c_out_chunked_length (rs_advance n X) = c_out_chunked_length X /\
+  c_out_state (rs_advance n X) = c_out_state X /\ (forall i, tx_slot (rs_advance n X) i = tx_slot X i).
+Proof. bd_rsplits; try reflexivity; try (intros i; apply bd_slot_ext; reflexivity). Qed.
+
+
 (* ================= (4) one step of RES_BODY_IDENTITY_STREAM_CLOSE: everything that is left in the chunk is delivered ================= *)
 Theorem bd_rs_stream_close_step o t c :
   bd_rs_inv o c -> tx_slot c o = Some t ->
@@ -146,9 +154,9 @@ Proof.
     rewrite Hdd. cbv beta iota zeta. pose proof (bd_rs_process_body o t c (Some (bd_rs_rest c)) _ Hi Hl Hh Hc E0) as Hp.
     unfold bytes in Hp |- *. rewrite Hp.
     unfold rs_closed. destruct (bd_rs_deliver_facts o t (Some (bd_rs_rest c)) (length (bd_rs_rest c)) c Hl) as (F1 & F2 & F3 & F4 & _).
-    change (c_out_status (rs_advance (length (bd_rs_rest c)) (bd_rs_deliver o t (Some (bd_rs_rest c)) (length (bd_rs_rest c)) c)))
-      with (c_out_status (bd_rs_deliver o t (Some (bd_rs_rest c)) (length (bd_rs_rest c)) c)).
-    rewrite F4, Hst2. reflexivity.
+    match goal with |- context [rs_advance ?n ?X] =>
+      destruct (bd_rs_advance_facts n X) as (_ & _ & A3 & _); rewrite A3 end.
+    unfold bytes in *. rewrite F4, Hst2. reflexivity.
 Qed.
 (* at close (no data, stream closed) the state only moves on: nothing is delivered, nothing is lost *)
 Lemma bd_rs_stream_close_at_close c :
@@ -160,7 +168,9 @@ Proof.
 Qed.
 
 (* ---- abstract form of the two steps ---- *)
-Definition bd_rs_clean (c : connp) : Prop := k_consume (c_out c) = k_read (c_out c) /\ k_buf (c_out c) = None.
+Definition bd_rs_pending (c : connp) : bytes := match k_buf (c_out c) with Some b => b | None => [] end.
+(* between two segments of a body: nothing scanned but not consumed, nothing buffered (out_buf NULL or of length 0) *)
+Definition bd_rs_clean (c : connp) : Prop := k_consume (c_out c) = k_read (c_out c) /\ bd_rs_pending c = [].
 Definition bd_rs_eqv (a b : connp) : Prop :=
   c_out a = c_out b /\ c_out_tx a = c_out_tx b /\ c_txs a = c_txs b /\ c_txs_shifted a = c_txs_shifted b /\
   c_out_status a = c_out_status b /\ c_events a = c_events b.
@@ -174,7 +184,7 @@ Qed.
 Lemma bd_rs_eqv_rest a b : bd_rs_eqv a b -> bd_rs_rest b = bd_rs_rest a.
 Proof. intros (E1 & _). unfold bd_rs_rest. rewrite E1. reflexivity. Qed.
 Lemma bd_rs_eqv_clean a b : bd_rs_eqv a b -> bd_rs_clean a -> bd_rs_clean b.
-Proof. intros (E1 & _). unfold bd_rs_clean. rewrite E1. auto. Qed.
+Proof. intros (E1 & _). unfold bd_rs_clean, bd_rs_pending. rewrite E1. auto. Qed.
 Lemma bd_rs_eqv_events a b : bd_rs_eqv a b -> c_events b = c_events a.
 Proof. intros (_ & _ & _ & _ & _ & E). auto. Qed.
 Lemma bd_rs_eqv_trans a b c : bd_rs_eqv a b -> bd_rs_eqv b c -> bd_rs_eqv a c.
@@ -188,36 +198,53 @@ Record bd_rs_stepped (o : nat) (t : tx) (dd : bytes) (c c' : connp) : Prop := mk
   rp_events : c_events c' = mkev H_RESPONSE_BODY_DATA o (Some dd) false None :: c_events c;
   rp_slot : tx_slot c' o = Some (t <| t_response_message_len ::= Z.add (Z.of_nat (length dd)) |>
                                    <| t_response_entity_len ::= Z.add (Z.of_nat (length dd)) |>);
-  rp_left : c_out_body_data_left c' = c_out_body_data_left c;
-  rp_chunked : c_out_chunked_length c' = c_out_chunked_length c;
   rp_state : c_out_state c' = c_out_state c
 }.
 Lemma bd_rs_advance_stepped o t dd rest c :
   bd_rs_inv o c -> tx_slot c o = Some t -> bd_rs_rest c = dd ++ rest ->
-  bd_rs_stepped o t dd c (rs_advance (length dd) (bd_rs_deliver o t (Some dd) (length dd) c)).
+  let c' := rs_advance (length dd) (bd_rs_deliver o t (Some dd) (length dd) c) in
+  bd_rs_stepped o t dd c c' /\ c_out_body_data_left c' = c_out_body_data_left c /\ c_out_chunked_length c' = c_out_chunked_length c.
 Proof.
   intros [Hi (t0 & Hl0 & Hh & Hc) Hr Hhd Hst (d & Hd & Hlen & Hrd)] Hl Hrest.
   rewrite Hl in Hl0. inversion Hl0; subst t0.
   destruct (bd_rs_deliver_facts o t (Some dd) (length dd) c Hl) as (F1 & F2 & F3 & F4 & F5 & F6 & F7 & F8).
   set (X := bd_rs_deliver o t (Some dd) (length dd) c) in *. clearbody X.
+  destruct (bd_rs_advance_facts (length dd) X) as (A1 & A2 & A3 & A4 & A5 & A6 & A7 & A8).
+  set (Y := rs_advance (length dd) X) in *. clearbody Y.
+  rewrite F2 in A1.
   assert (Hle : (k_read (c_out c) + length dd <= length d)%nat).
   { unfold bd_rs_rest in Hrest. rewrite Hd in Hrest. assert (length (skipn (k_read (c_out c)) d) = length (dd ++ rest)) by (rewrite Hrest; reflexivity).
     rewrite skipn_length, app_length in H. lia. }
-  assert (G : c_out (rs_advance (length dd) X) = (c_out c) <| k_read := (k_read (c_out c) + length dd)%nat |> <| k_consume := (k_consume (c_out c) + length dd)%nat |>)
-    by (unfold rs_advance, rs_set_out; cbn; rewrite F2; reflexivity).
+  cbv zeta. split; [|split; [rewrite A5; exact F6|rewrite A6; exact F7]].
   constructor.
-  - constructor; try (change (c_out_tx (rs_advance (length dd) X)) with (c_out_tx X)); try (change (c_out_status (rs_advance (length dd) X)) with (c_out_status X));
-      rewrite ?G, ?F3, ?F4; try assumption.
-    + eexists. split; [erewrite bd_slot_ext; [exact F8|reflexivity|reflexivity]|]. split; [exact Hh|exact Hc].
+  - constructor; rewrite ?A1, ?A2, ?A3, ?F3, ?F4; try assumption.
+    + eexists. split; [rewrite A8; exact F8|]. split; [exact Hh|exact Hc].
     + exists d. cbn. bd_rsplits; auto.
   - intros rest' H. rewrite Hrest in H. apply app_inv_head in H. subst rest'.
-    unfold bd_rs_rest. rewrite G. cbn. rewrite Hd. unfold bd_rs_rest in Hrest. rewrite Hd in Hrest.
+    unfold bd_rs_rest. rewrite A1. cbn. rewrite Hd. unfold bd_rs_rest in Hrest. rewrite Hd in Hrest.
     rewrite <- bd_skipn_skipn', Hrest, skipn_app, Nat.sub_diag, skipn_all. reflexivity.
-  - intros (A & B). unfold bd_rs_clean. rewrite G. cbn. split; [lia|exact B].
-  - exact F1.
-  - erewrite bd_slot_ext; [exact F8|reflexivity|reflexivity].
-  - exact F6.
-  - exact F7.
-  - exact F5.
+  - intros (A & B). unfold bd_rs_clean, bd_rs_pending in *. rewrite A1. cbn. split; [lia|exact B].
+  - rewrite A4. exact F1.
+  - rewrite A8. exact F8.
+  - rewrite A7. exact F5.
 Qed.
 End Res.
+
+Lemma bd_rs_invb_sound o c : bd_rs_invb o c = true -> bd_rs_inv o c.
+Proof.
+  unfold bd_rs_invb. intros H. repeat (apply andb_true_iff in H; destruct H as (H & ?)).
+  destruct (c_out_tx c) as [j|] eqn:E1; [|discriminate]. apply Nat.eqb_eq in H. subst j.
+  destruct (tx_slot c o) as [t|] eqn:E2; [|discriminate]. apply andb_true_iff in H5. destruct H5 as (H5 & H6).
+  apply Nat.eqb_eq in H5. apply Z.eqb_eq in H6.
+  destruct (k_receiver_hook (c_out c)) eqn:E3; [discriminate|].
+  destruct (k_header (c_out c)) eqn:E4; [discriminate|].
+  destruct (k_data (c_out c)) as [d|] eqn:E5; [|discriminate].
+  apply andb_true_iff in H0. destruct H0 as (A & B). apply Nat.eqb_eq in A. apply Nat.leb_le in B.
+  apply negb_true_iff in H1. apply negb_true_iff in H2.
+  constructor; auto. exists t; auto. exists d; auto.
+Qed.
+Lemma bd_rs_cleanb_sound c : bd_rs_cleanb c = true -> bd_rs_clean c.
+Proof.
+  unfold bd_rs_cleanb, bd_rs_clean, bd_rs_pending. intros H. apply andb_true_iff in H. destruct H as (A & B). apply Nat.eqb_eq in A.
+  destruct (k_buf (c_out c)) as [[|]|]; try discriminate; auto.
+Qed.
